@@ -147,11 +147,34 @@ inductive Eff where
   | setSent (b : Bool)
 deriving Repr, DecidableEq
 
+inductive Cmp where
+  | eq | ne | gt | ge | lt | le
+deriving Repr, DecidableEq
+
+/-- the guard of a table row as written in the Rust source: a Boolean expression over the
+tick reason (`recv` = ReceivePublishRequest), the inputs, the flags and comparisons of the two
+counters with constants -/
+inductive Cond where
+  | tt | recv | enabled | sent | more | na | req | expired
+  | ka (c : Cmp) (n : Nat)
+  | life (c : Cmp) (n : Nat)
+  | not (a : Cond)
+  | and (a b : Cond)
+  | or (a b : Cond)
+deriving Repr, DecidableEq
+
 structure Row where
   num : Nat
+  states : List SState        -- the states of the enclosing `match self.state` arm
+  guard : Cond
   action : Action
   effs : List Eff
 deriving Repr, DecidableEq
+
+def evalCmp (c : Cmp) (a b : Nat) : Bool :=
+  match c with
+  | .eq => decide (a = b) | .ne => decide (a ≠ b) | .gt => decide (a > b)
+  | .ge => decide (a ≥ b) | .lt => decide (a < b) | .le => decide (a ≤ b)
 
 def applyEff (s : Subn) : Eff → Option Subn
   | .resetLife => some (resetLife s)
@@ -167,6 +190,32 @@ def applyEffs : List Eff → Subn → Option Subn
     match applyEff s e with
     | some s' => applyEffs es s'
     | none => none
+
+def evalCond (s : Subn) (timer : Bool) (p : Params) : Cond → Bool
+  | .tt => true
+  | .recv => !timer
+  | .enabled => s.enabled
+  | .sent => s.sent
+  | .more => p.more
+  | .na => p.na
+  | .req => p.req
+  | .expired => p.expired
+  | .ka c n => evalCmp c s.ka n
+  | .life c n => evalCmp c s.life n
+  | .not a => !evalCond s timer p a
+  | .and a b => evalCond s timer p a && evalCond s timer p b
+  | .or a b => evalCond s timer p a || evalCond s timer p b
+
+/-- the control flow of `update_state` over a table of rows in source order: the initial panic,
+then the FIRST row whose match arm contains the state and whose guard holds; its effects in
+order; row 0 / action None when no row applies -/
+def interpRows (rows : List Row) (s : Subn) (timer : Bool) (p : Params) :
+    Option (Subn × Nat × Action) :=
+  if !timer && p.expired then none
+  else
+    match rows.find? (fun r => r.states.contains s.state && evalCond s timer p r.guard) with
+    | some r => (applyEffs r.effs s).map fun s' => (s', r.num, r.action)
+    | none => some (s, 0, .none)
 
 /-- `enqueue_notification`: panics unless the sequence number is the expected one -/
 def enqueue (s : Subn) (k : Msg) (n : Nat) : Option Subn :=
